@@ -1,0 +1,74 @@
+//go:build verif
+
+package search
+
+import (
+	"encoding/json"
+	"sort"
+	"strings"
+	"testing"
+
+	"github.com/gotid/god/internal/verifdrv"
+)
+
+type verifCase struct {
+	Kind string   `json:"kind"`
+	Adds []string `json:"adds"`
+	Reqs []string `json:"reqs"`
+}
+
+type verifRes struct {
+	Found bool        `json:"found"`
+	Item  int         `json:"item"`
+	Vars  [][2]string `json:"vars"`
+}
+
+func verifErr(err error) string {
+	switch {
+	case err == nil:
+		return ""
+	case err == errNotFromRoot:
+		return "notfromroot"
+	case err == errEmptyItem:
+		return "emptyitem"
+	case err == errInvalidState:
+		return "invalidstate"
+	case strings.HasPrefix(err.Error(), "重复的路由条目"):
+		return "dup"
+	case strings.HasPrefix(err.Error(), "重复的斜线"):
+		return "dupslash"
+	default:
+		return "other:" + err.Error()
+	}
+}
+
+// TestVerifDriver adds raw (uncleaned) routes to a fresh Tree (item = index) and searches raw routes.
+func TestVerifDriver(t *testing.T) {
+	verifdrv.Run(t, func(raw json.RawMessage) any {
+		var c verifCase
+		if err := json.Unmarshal(raw, &c); err != nil {
+			return map[string]any{"error": err.Error()}
+		}
+		tr := NewTree()
+		errs := make([]string, len(c.Adds))
+		for i, a := range c.Adds {
+			errs[i] = verifErr(tr.Add(a, i))
+		}
+		res := make([]verifRes, len(c.Reqs))
+		for i, q := range c.Reqs {
+			r, ok := tr.Search(q)
+			o := verifRes{Found: ok, Item: -1, Vars: [][2]string{}}
+			if id, isInt := r.Item.(int); isInt {
+				o.Item = id
+			} else if ok {
+				o.Item = -2 // found without an item
+			}
+			for k, v := range r.Params {
+				o.Vars = append(o.Vars, [2]string{k, v})
+			}
+			sort.Slice(o.Vars, func(a, b int) bool { return o.Vars[a][0] < o.Vars[b][0] })
+			res[i] = o
+		}
+		return map[string]any{"errs": errs, "res": res}
+	})
+}
